@@ -227,6 +227,12 @@ def cases(tier):
                 idx += 1
                 yield {'fam': 'samename', 'handlers': names, 'order': order,
                        'syntax': SYNTAXES[idx % 3]}
+            # dtml-raise with a computed class: the same compiled tag raises
+            # whatever the expression yields in *this* render
+            for order in (['HA', 'HX'], ['HX', 'HB', 'HA'], ['HC', 'HX', 'HC']):
+                idx += 1
+                yield {'fam': 'samename', 'handlers': names, 'order': order,
+                       'via': 'raise-expr', 'syntax': SYNTAXES[idx % 3]}
     # empty bodies: a matching handler without content still handles, an
     # empty else / finally / try body changes nothing else
     eh = [['HA'], ['HB'], ['HX'], []]
@@ -309,6 +315,9 @@ def run_samename(res, case):
     from .. import refsem
     from ..probes import World
     node = flat_try('HV', case['handlers'], None, None)
+    via = case.get('via')
+    if via == 'raise-expr':
+        node[1] = [T('b'), ['raise', E('HVc'), [T('m'), P(3)]], T('B')]
     nodes = [T('<'), node, T('>')] + AFTER
     src = ast.to_source(nodes, case['syntax'])
     t = ast.template_class(case['syntax'])(src)
@@ -318,6 +327,7 @@ def run_samename(res, case):
     for step, cls in enumerate(case['order']):
         ns = namespace()
         ns['raiseHV'] = ['raiser', 'rHV', cls, 'msg']
+        ns['HVc'] = ['exc', cls]
         obs = []
         for mode in ('impl', 'ref'):
             w = World(mode, case['syntax'])
@@ -332,7 +342,8 @@ def run_samename(res, case):
                 o = ['exc', type(e).__name__, refsem.exception_text(e)]
             obs.append((o, w.log))
         if obs[0] != obs[1]:
-            res.violate('same-name-classes', 'samename:%s' % (
+            res.violate('same-name-classes', '%s:%s' % (
+                via or 'samename',
                 'first' if step == 0 else 'later-render'),
                 {'source': src, 'step': step, 'raised': cls,
                  'impl': obs[0], 'ref': obs[1]})
